@@ -405,4 +405,44 @@ example :
     (exec St.init (.call ⟨⟨10#64, 0#64, 0#64⟩, Res.zero, 0#16⟩ [.op (.reqCpu 4#64)] [.err, .op (.reqCpu 5#64)])).1.results.map
       (fun r => (r.status, r.used.Cpu)) = [(StatusError, 9#64)] := by decide +kernel
 
+/-! ## the limit merge is a lattice meet (laws over the regenerated `Merge` / `Dominates`) -/
+
+/-- `Merge` is the greatest lower bound of two limit vectors (0 = unlimited is the top): the child
+of `PushContext` gets *exactly* the tighter of what is left and what was asked — never less. -/
+theorem merge_greatest_lower_bound (r r1 x : RuntimeResources) (h : resLe x r) (h1 : resLe x r1) :
+    resLe x (r.Merge r1) := by
+  unfold resLe at *; rw [Merge_Cpu, Merge_Memory, Merge_Millis]
+  exact ⟨pick_glb _ _ _ h.1 h1.1, pick_glb _ _ _ h.2.1 h1.2.1, pick_glb _ _ _ h.2.2 h1.2.2⟩
+
+theorem merge_comm (r r1 : RuntimeResources) : r.Merge r1 = r1.Merge r := by
+  apply res_ext <;> simp only [Merge_Cpu, Merge_Memory, Merge_Millis] <;> exact pick_comm _ _
+
+theorem merge_idem (r : RuntimeResources) : r.Merge r = r := by
+  apply res_ext <;> simp only [Merge_Cpu, Merge_Memory, Merge_Millis] <;> exact pick_idem _
+
+theorem merge_assoc (a b c : RuntimeResources) : (a.Merge b).Merge c = a.Merge (b.Merge c) := by
+  apply res_ext <;> simp only [Merge_Cpu, Merge_Memory, Merge_Millis] <;> exact pick_assoc _ _ _
+
+/-- a counter vector is within the merged limits iff it is within both: nesting contexts can only
+add constraints, and adds no constraint that neither level asked for -/
+theorem dominates_merge_iff (r r1 v : RuntimeResources) :
+    (r.Merge r1).Dominates v = true ↔ (r.Dominates v = true ∧ r1.Dominates v = true) := by
+  simp only [Dominates_iff, resBelow, Merge_Cpu, Merge_Memory, Merge_Millis, below_pick_iff]
+  constructor
+  · rintro ⟨⟨a, b⟩, ⟨c, d⟩, ⟨e, f⟩⟩; exact ⟨⟨a, c, e⟩, ⟨b, d, f⟩⟩
+  · rintro ⟨⟨a, c, e⟩, ⟨b, d, f⟩⟩; exact ⟨⟨a, b⟩, ⟨c, d⟩, ⟨e, f⟩⟩
+
+/-- the child of `PushContext` has *exactly* the tighter of "what the parent has left" and "what
+was asked", component by component: nothing that is below both is stricter than the child's limit -/
+theorem push_hard_is_exact_meet (f : Frame) (d : CtxDef) (x : RuntimeResources)
+    (h1 : resLe x (f.hard.Remove f.used)) (h2 : resLe x d.hard) : resLe x (f.child d).hard :=
+  merge_greatest_lower_bound _ _ _ h1 h2
+
+-- non-vacuity: a concrete pair of limit vectors where each side is the tighter one in some component
+example : let r : RuntimeResources := { Cpu := 100#64, Memory := 0#64, Millis := 7#64 }
+          let r1 : RuntimeResources := { Cpu := 0#64, Memory := 50#64, Millis := 9#64 }
+          r.Merge r1 = { Cpu := 100#64, Memory := 50#64, Millis := 7#64 } ∧
+          (r.Merge r1).Dominates { Cpu := 99#64, Memory := 49#64, Millis := 6#64 } = true ∧
+          (r.Merge r1).Dominates { Cpu := 99#64, Memory := 50#64, Millis := 6#64 } = false := by decide
+
 end GoluaVerif.Props.C07
